@@ -26,6 +26,8 @@ var vfE4Slots = []vfE4Slot{
 	{"hA", "nA", "v1", 4150, 4151},
 	{"hB", "nB", "v1", 4150, 4151},
 	{"hA", "nC", "v2", 5150, 4151},
+	// slot 3: the broadcast address of slots 0/2 with ANOTHER HTTP port — a tombstone for "hA:4151" must not touch it
+	{"hA", "nD", "v1", 4150, 4152},
 }
 
 func vfE4H(s string) string { return vfHex([]byte(s)) }
@@ -125,6 +127,8 @@ func (g *vfE4Gen) line(op vfE4Op) string {
 		return fmt.Sprintf("%d http tombstone 0 %s _ %s", now, vfE4H(op.a), vfE4H(op.b))
 	case "advance":
 		return fmt.Sprintf("%d q", now+op.adv*vfE4Unit)
+	case "qstar":
+		return fmt.Sprintf("%d qstar", now)
 	}
 	panic("unknown op kind " + op.kind)
 }
@@ -185,6 +189,11 @@ func vfE4Alphabet(kind string) []vfE4Op {
 			ops = append(ops, vfE4Op{kind: "tombstone", slot: -1, a: t, b: fmt.Sprintf("%s:%d", vfE4Slots[s].bc, vfE4Slots[s].http)})
 		}
 	}
+	if kind != "small" {
+		// the two wild-card paths whose result depends on Go's map order (model: a set of allowed results)
+		ops = append(ops, vfE4Op{kind: "tombstone", slot: -1, a: "*", b: fmt.Sprintf("%s:%d", vfE4Slots[0].bc, vfE4Slots[0].http)},
+			vfE4Op{kind: "qstar", slot: -1})
+	}
 	ops = append(ops, vfE4Op{kind: "advance", slot: -1, adv: 1}, vfE4Op{kind: "advance", slot: -1, adv: 2})
 	return ops
 }
@@ -216,8 +225,7 @@ func TestVerifE4Exhaustive(t *testing.T) {
 		for i := 0; i < L; i++ {
 			op := alpha[x%N]
 			x /= N
-			line := g.line(op)
-			res := env.Exec(line)
+			line, res := env.ExecX(g.line(op))
 			g.after(op.slot, res)
 			out.Case(line, res)
 		}
@@ -258,7 +266,12 @@ func vfE4RandomOp(r *vfRand, nslots int) vfE4Op {
 		return vfE4Op{kind: "deleteChannel", slot: -1, a: t, b: chans[2+r.Intn(2)]}
 	case 15, 16, 17:
 		sl := vfE4Slots[r.Intn(nslots)]
+		if r.Intn(3) == 0 {
+			t = "*"
+		}
 		return vfE4Op{kind: "tombstone", slot: -1, a: t, b: fmt.Sprintf("%s:%d", sl.bc, sl.http)}
+	case 18:
+		return vfE4Op{kind: "qstar", slot: -1}
 	default:
 		return vfE4Op{kind: "advance", slot: -1, adv: int64(1 + r.Intn(2))}
 	}
@@ -275,12 +288,12 @@ func TestVerifE4Random(t *testing.T) {
 	defer out.Close()
 	out.Case(env.ConfLine("fixed"), "conf")
 	r := vfNewRand(1400 + uint64(shard))
-	g := vfE4NewGen(env, 3)
+	g := vfE4NewGen(env, 4)
 	for h := 0; h < n; h++ {
 		out.Case("reset", env.Exec("reset"))
 		g.reset()
 		for i := 0; i < L; i++ {
-			op := vfE4RandomOp(r, 3)
+			op := vfE4RandomOp(r, 4)
 			// mostly-valid: registering on an unidentified slot closes it; keep that rare
 			if (op.kind == "register" || op.kind == "unregister") && !g.ident[op.slot] && r.Intn(8) != 0 {
 				op = vfE4Op{kind: "identify", slot: op.slot}
@@ -288,8 +301,7 @@ func TestVerifE4Random(t *testing.T) {
 			if strings.HasPrefix(op.kind, "abort-") && op.kind != "abort-identify" && !g.ident[op.slot] && r.Intn(8) != 0 {
 				op = vfE4Op{kind: "identify", slot: op.slot}
 			}
-			line := g.line(op)
-			res := env.Exec(line)
+			line, res := env.ExecX(g.line(op))
 			g.after(op.slot, res)
 			out.Case(line, res)
 		}
@@ -334,6 +346,11 @@ func TestVerifE4Replay(t *testing.T) {
 		// flushed before execution: if the process dies the last line names the input
 		fmt.Printf("E4-REPLAY-LINE %s\n", l)
 		os.Stdout.Sync()
+		if w := strings.Fields(l); len(w) >= 2 && (w[1] == "qstar" || (len(w) > 2 && w[1] == "http" && w[2] == "tombstone")) {
+			l2, res := env.ExecX(l)
+			out.Case(l2, res)
+			continue
+		}
 		out.Case(l, env.Exec(l))
 	}
 	fmt.Printf("E4-REPLAY-DONE lines=%d\n", out.N)
